@@ -1154,11 +1154,13 @@ def cp_class(cp):
 
 def run_char_sweep(rep, b, tier, env, counters):
     cuts = [0, 0x100, 0x800, 0x4000, 0x10000, 0x30000, 0x60000, 0x90000, 0xC0000, 0xE0000, 0x110000]
+    if tier != "quick":
+        cuts = [0, 0x100, 0x800] + list(range(0x4000, 0x110000, 0x4000)) + [0x110000]
     sw = [("cw%d" % i, cuts[i], cuts[i + 1]) for i in range(len(cuts) - 1)]
     stride = 64 if tier == "quick" else 1
     rep.extra["sweep_full_stride"] = stride
     res, procs = C.run_batches(b, IMPORTS, HEADER + SWEEP_HEADER, [(c, char_sweep_form(c, lo, hi, stride)) for c, lo, hi in sw],
-                               batch=1, env_extra=env, timeout=600, heap="32M/256M")
+                               batch=1, env_extra=env, timeout=900, heap="32M/256M")
     swept = 0
     for cid, lo, hi in sw:
         r = res.get(cid)
@@ -1222,16 +1224,16 @@ def check(rep, tier, seed):
     quick = tier == "quick"
     env = {"CHIBI_VERIF_HEAPCHECK": 1}
     procs = []
-    counters = {"W": 0, "R": 0, "X": 0, "XW": 0, "foreign_text_ok": 0, "foreign_text_other": 0}
+    counters = {"W": 0, "R": 0, "X": 0, "XW": 0}
 
     procs += run_flonums(rep, b, rng, tier, env)
 
     g = DataGen(rng)
     cases = []
-    n_leaf = 4000 if quick else 60000
-    n_tree = 2500 if quick else 100000
-    n_graph = 1500 if quick else 40000
-    n_text = 0 if quick else 100000          # random mutations of python-printed texts: thorough tier only
+    n_leaf = 4000 if quick else 40000
+    n_tree = 2500 if quick else 30000
+    n_graph = 1500 if quick else 20000
+    n_text = 0 if quick else 20000          # random mutations of python-printed texts: thorough tier only
     for i in range(n_leaf):
         kind = ("str", "sym", "char", "big", "ratio", "cpx", "flo", "bv")[i % 8]
         m, e, klass = g.leaf((kind,))
@@ -1305,8 +1307,9 @@ def check(rep, tier, seed):
         procs += run_char_sweep(rep, b, tier, env, counters)
 
     for k, v in counters.items():
-        rep.count(k + "_checks" if k in ("W", "R", "X") else k, v)
-    rep.extra["data"] = {"leaves": n_leaf, "trees": n_tree, "graphs": n_graph, "texts": n_text}
+        rep.count(k + "_checks" if k in ("W", "R", "X") else "library_writer_texts_checked", v)
+    rep.extra["data"] = {"leaves": n_leaf, "trees": n_tree, "graphs": n_graph,
+                         "named_texts": sum(1 for c in cases if c["fam"] == "x2" and c["origin"] != "mutated"), "mutated_texts": n_text}
     for p in procs:
         for l in p.log_lines("HEAPCHECK-FAIL"):
             rep.violation({"check": "heapcheck", "mode": l.split()[1]}, {"line": l})
